@@ -61,6 +61,7 @@ import gen
 from props.common import account, oracle_run
 from props.mpi_common import run_mpi
 from props import c12_sa
+from props import c12_relax
 
 DRIVERS = ["mpi_solve"]
 MODEL = "distsolve"
@@ -201,6 +202,8 @@ def cases(tier, seed):
     out += bsolve_cases(tier, seed)
     # ---- distributed smoothed aggregation on its own, against the model DistSa.v (own random stream)
     out += c12_sa.sa_cases(tier, seed)
+    # ---- the smoothers under MPI on their own (runtime wrapper), against the model DistRelax.v (own random stream)
+    out += c12_relax.relax_cases(tier, seed)
     # ---- PMIS model tie (Pmis.v): pattern graphs x contiguous partitions, exhaustive for small n
     import itertools
     def graph_case(np_, n, edges, p, eps="0", w=None):
@@ -969,6 +972,7 @@ def run(ctx, cases_override=None):
             if o is None and crashed and cid not in frag_ids: continue   # not run: an earlier case of its shard hung / crashed
             try:
                 if op in ("sa", "bsa"): c12_sa.check_sa(l, o, np_, fails, ctx)
+                elif op in ("relax", "brelax"): c12_relax.check_relax(l, o, np_, fails, ctx)
                 else: {"solve": check_solve, "pmis": check_pmis, "direct": check_direct, "bsolve": check_bsolve, "bdirect": check_bdirect}[op](l, o, np_, olines, fails, ctx)
             except Exception as e:
                 fails.append(dict(kind="counterexample", case=l, impl=(o or "")[:3000], model=None, op=op, size=len(l), np=np_,
@@ -1012,6 +1016,9 @@ def run(ctx, cases_override=None):
         # fourth stage: the extracted model of the distributed smoothed aggregation (DistSa.v) on the sa / bsa cases
         c12_sa.finish_sa(ctx, np_, fails, lambda key: ns_stat(ctx, key))
         tick("sa model np=%d" % np_)
+        # fifth stage: the extracted model of the smoothers under MPI (DistRelax.v) on the relax / brelax cases
+        c12_relax.finish_relax(ctx, np_, fails, lambda key: ns_stat(ctx, key))
+        tick("relax model np=%d" % np_)
     return fails
 
 
